@@ -331,26 +331,29 @@ func (r *c09Runner) enumerate(thorough bool) {
 	type sr struct{ sys, kres, anno int64 }
 	srs := []sr{{0, 0, 0}, {3, 5, 0}, {20, 5, 8}}
 	if thorough {
-		appSets = append(appSets, []c09Use{{"batch", u(4)}}, []c09Use{{"prod", u(4)}, {"free", u(4)}})
+		appSets = append(appSets, []c09Use{{"batch", u(4)}})
 		modes = append(modes, md{"static", 0}, md{"static", 25})
-		mthrs = append(mthrs, 0, 25, 75)
-		upcts = append(upcts, 25, 75)
-		recs = append(recs, opt(true, 0), opt(true, 100))
-		usages = append(usages, opt(true, 0), opt(true, 90))
-		srs = append(srs, sr{3, 0, 8}, sr{20, 0, 0})
+		mthrs = append(mthrs, 0, 75)
+		upcts = append(upcts, 25)
+		recs = append(recs, opt(true, 100))
+		usages = append(usages, opt(true, 90))
+		srs = append(srs, sr{3, 0, 8})
 	}
 	for _, mo := range modes {
 		for _, mt := range mthrs {
 			for _, up := range upcts {
-				if mo.mode == "static" && up != upcts[0] && !thorough {
+				if mo.mode == "static" && up != upcts[0] {
 					continue // the unallocated percent is irrelevant in static mode
 				}
-				for _, rc := range recs {
-					for _, us := range usages {
+				for ri, rc := range recs {
+					for ui, us := range usages {
+						if mo.mode == "static" && (ri > 0 || ui > 1) {
+							continue // so are the prod-reclaimable metric and (mostly) the node usage
+						}
 						for _, s := range srs {
 							for pi, ps := range podSets {
 								for ai, as := range appSets {
-									if !thorough && ai > 0 && pi > 1 {
+									if ai > 0 && pi > 1 { // host applications next to no pod / one prod pod only
 										continue
 									}
 									in := c09In{Cap: u(80), Alloc: u(80 - s.kres), Anno: u(s.anno), Sys: u(s.sys), Degrade: 15, Age: 30,
@@ -365,9 +368,10 @@ func (r *c09Runner) enumerate(thorough bool) {
 			}
 		}
 	}
-	// stale node metrics
-	for _, age := range []int64{0, 899, 900, 901, 3600, 100000, -1} {
-		for _, deg := range []int64{15, 1} {
+	// stale node metrics: ages around the degrade time d (d itself is not yet stale), far beyond it, never updated
+	for _, deg := range []int64{1, 5, 15} {
+		d := deg * 60
+		for _, age := range []int64{0, d - 1, d, d + 1, d + 29, d + 31, d + 59, d + 61, 2 * d, 100000, -1} {
 			for _, mo := range modes[:2] {
 				in := c09In{Cap: u(80), Alloc: u(75), Sys: u(3), Degrade: deg, Age: age, Usage: opt(true, 10), ProdRec: opt(true, 30),
 					Pods: podSets[1], MThr: c09RL{100, 100}, UPct: 50, Mode: mo.mode, SPct: c09RL{mo.spct, mo.spct}}.clone()
@@ -541,7 +545,7 @@ func TestVerifC09Mid(t *testing.T) {
 	r.enumerate(vu.Thorough())
 	nEnum := r.rec.Segments()
 	if vu.Thorough() {
-		r.random(vu.EnvInt("VERIF_C09_RANDOM_MID", 30000), 10)
+		r.random(vu.EnvInt("VERIF_C09_RANDOM_MID", 15000), 10)
 	} else {
 		r.random(vu.EnvInt("VERIF_C09_RANDOM_MID", 1500), 10)
 	}
